@@ -175,7 +175,8 @@ theorem exp_cdf_eq_gamma_rel (h : 0 < d.f_rate) (x : ℝ) :
     by_cases hx0 : x = 0
     · subst hx0; simp
     · have hpos : 0 < x := lt_of_le_of_ne hx (Ne.symm hx0)
-      simp only [not_le.mpr hpos, not_lt.mpr hx, if_false, Bool.false_eq_true, and_false]
+      have hne : x * d.f_rate ≠ 0 := mul_ne_zero hpos.ne' h.ne'
+      simp only [not_le.mpr hpos, not_lt.mpr hx, if_false, Bool.false_eq_true, and_false, hne]
       rw [S.gamma_lr_one _ (mul_nonneg hx h.le)]
       ring_nf
 
@@ -189,7 +190,8 @@ theorem exp_sf_eq_gamma_rel (h : 0 < d.f_rate) (x : ℝ) :
     by_cases hx0 : x = 0
     · subst hx0; simp
     · have hpos : 0 < x := lt_of_le_of_ne hx (Ne.symm hx0)
-      simp only [not_le.mpr hpos, not_lt.mpr hx, if_false, Bool.false_eq_true, and_false]
+      have hne : x * d.f_rate ≠ 0 := mul_ne_zero hpos.ne' h.ne'
+      simp only [not_le.mpr hpos, not_lt.mpr hx, if_false, Bool.false_eq_true, and_false, hne]
       rw [S.gamma_ur_one _ (mul_nonneg hx h.le)]
       ring_nf
 
